@@ -92,6 +92,7 @@ def dumpOf (j : Json) : Except String DumpEntry := do
   let k ← (← j.getObjVal? "kind").getStr?
   let kind ← match k with
     | "class" => pure DumpKind.cls | "interface" => pure DumpKind.iface | "boxed" => pure DumpKind.boxed
+    | "enum" => pure DumpKind.enum | "flags" => pure DumpKind.enum
     | _ => throw s!"bad dump kind {k}"
   pure { kind := kind, gtypeName := ← strOf j "name", getType := ← strOf j "get_type",
          parents := (strListOf j "parents").toOption.getD [] }
